@@ -117,6 +117,29 @@ fn run_op(op: &str, s: &mut Setup, rng: &mut Rng) {
     let _ = rng;
 }
 
+/// Keep using both worlds through the safe API after the fault: read every row, probe / read /
+/// write / remove through every identifier known before the fault, insert again.
+fn post_use(s: &mut Setup) {
+    let _ = F::rows(&mut s.a);
+    let _ = F::rows(&mut s.b);
+    for id in s.ids.clone() {
+        let i = mk_ident(id);
+        let _ = F::contains(&s.a, i);
+        let _ = F::has_entry(&mut s.a, i);
+        let _ = F::chain(&mut s.a, i, &[(3, 0, 0), (3, 2, 0), (3, 3, 0)]);
+        let _ = F::write(&mut s.a, i, 0, 990);
+        let _ = F::chain(&mut s.b, i, &[(3, 0, 0), (3, 2, 0)]);
+    }
+    for id in s.ids.clone() {
+        F::remove(&mut s.a, mk_ident(id));
+        F::remove(&mut s.b, mk_ident(id));
+    }
+    let _ = F::insert(&mut s.a, &[0, 2], &[991, 992]);
+    let _ = F::insert(&mut s.b, &[0, 2, 3], &[993, 994, 995]);
+    let _ = F::rows(&mut s.a);
+    let _ = F::rows(&mut s.b);
+}
+
 static SAVED: std::sync::atomic::AtomicI64 = std::sync::atomic::AtomicI64::new(-1);
 static SAVED_CB: std::sync::atomic::AtomicUsize = std::sync::atomic::AtomicUsize::new(0);
 
@@ -158,7 +181,12 @@ pub fn point(seed: u64, op: &str, cb: Callback, k: i64) {
     disarm();
     let panicked = r.is_err();
     let mut errs = take_errors();
-    // the worlds must still be droppable, with no value dropped twice and nothing freed twice
+    // the worlds must stay usable through the safe API after the panic (a stale identifier or a
+    // stale row would make these calls read or write outside the live rows: caught as a crash by
+    // std's checks on unchecked accesses, or by the self-checking payloads) …
+    let r3 = catch_unwind(AssertUnwindSafe(|| post_use(&mut s)));
+    errs.extend(take_errors());
+    // … and droppable, with no value dropped twice and nothing freed twice
     let r2 = catch_unwind(AssertUnwindSafe(move || drop(s)));
     errs.extend(take_errors());
     let now = crate::alloc_audit::snapshot();
@@ -171,6 +199,9 @@ pub fn point(seed: u64, op: &str, cb: Callback, k: i64) {
         outcome = "alloc-error".to_string();
     } else if r2.is_err() {
         outcome = "drop-panicked".to_string();
+    } else if let Err(e) = &r3 {
+        let msg = e.downcast_ref::<String>().cloned().or_else(|| e.downcast_ref::<&str>().map(|s| s.to_string())).unwrap_or_default();
+        outcome = format!("use-after-panic-panicked:{}", msg.replace(' ', "_"));
     }
     println!("result panicked={} {}", panicked as u8, outcome);
 }
